@@ -566,9 +566,247 @@ def rule_r7(ctx):
                 r.ob(fn, "%s(&%s) line %s: not read on failing paths" % (g.name, var, s.line))
 
 
+# ---------------------------------------------------------------------------
+# R8: a constructor's failure path does not finalize what was never initialized
+# R9: ... and does not free an object that a registration still points to
+
+INIT_FINI = (("nni_proto_sock_ops.sock_init", "nni_proto_sock_ops.sock_fini"),
+             ("nni_sp_dialer_ops.d_init", "nni_sp_dialer_ops.d_fini"),
+             ("nni_sp_listener_ops.l_init", "nni_sp_listener_ops.l_fini"),
+             ("nni_proto_ctx_ops.ctx_init", "nni_proto_ctx_ops.ctx_fini"),
+             ("nni_proto_pipe_ops.pipe_init", "nni_proto_pipe_ops.pipe_fini"),
+             ("nni_sp_pipe_ops.p_init", "nni_sp_pipe_ops.p_fini"))
+
+
+def slot_calls(f, slot):
+    out = []
+    for s in f.sites():
+        n = s.node
+        if n.get("k") == "call" and n.get("ind") is not None and last_field(f.expand(n["ind"])) == slot:
+            out.append(s)
+    return out
+
+
+def must_call_slot(prog, f, slot, depth=0):
+    """positions in f after which the init slot has certainly run: direct slot calls, and calls to functions that
+    call the slot on every path to their exit"""
+    pos = {(s.b, s.i) for s in slot_calls(f, slot)}
+    if depth < 2:
+        for s in f.calls():
+            g = prog.resolve(f, s.node.get("fn")) if s.node.get("fn") else None
+            if g is None or g is f or g.cfg_failed:
+                continue
+            inner = must_call_slot(prog, g, slot, depth + 1)
+            if inner and not g.reaches_exit((g.entry, 0), blocked=lambda b, i, e: (b, i) in inner):
+                pos.add((s.b, s.i))
+    return pos
+
+
+def allocates(f, var):
+    from .c01 import var_defs
+    for p, e in var_defs(f, var):
+        while e is not None and e.get("k") == "cast":
+            e = e["e"]
+        if e is not None and e.get("k") == "call" and e.get("fn") in ("nni_zalloc", "nni_alloc"):
+            return True
+    return False
+
+
+def rule_r8(ctx):
+    from .. import guards as G
+    r = ctx.rule("C20.R8", "T3", "a constructor that allocates an object calls the object's destroyer (which invokes the fini slot) "
+                 "only after the matching init slot has run, or after clearing the field the destroyer tests before finalizing",
+                 floor=5)
+    prog = ctx.prog
+    for islot, fslot in INIT_FINI:
+        destroyers = [f for f in prog.functions if not f.cfg_failed and slot_calls(f, fslot)]
+        for D in destroyers:
+            fin = slot_calls(D, fslot)[0]
+            # guard field of the fini call inside D (e.g. `if (s->s_data != NULL)`)
+            gfield = None
+            for b in D.blocks.values():
+                c = D.cond(b.id) if b.term and len(b.succs) == 2 else None
+                if c is None:
+                    continue
+                for fld in [n for n in walk(c) if n.get("k") == "mem"]:
+                    t = truth_of(c, lambda n, fld=fld: n is fld)
+                    if t and D.dominated_by((fin.b, fin.i), edge_ok=lambda bb, k, b=b, t=t: not (bb == b.id and k == (0 if t > 0 else 1))):
+                        gfield = last_field(fld)
+            for F in prog.functions:
+                if F.cfg_failed or F is D:
+                    continue
+                for c in F.calls(D.name):
+                    a = F.expand(c.node["args"][0]) if c.node["args"] else None
+                    if a is None or a.get("k") != "var" or not allocates(F, a["n"]):
+                        continue
+                    inits = must_call_slot(prog, F, islot)
+                    clears = set()
+                    if gfield:
+                        clears = G.positions(x for x in G.stores(F, gfield.split(".", 1)[1], value="null"))
+                    seen = F.reach((F.entry, 0), blocked=lambda b, i, e: (b, i) in inits or (b, i) in clears)
+                    if (c.b, c.i) in seen:
+                        ctx.fail(r, F, "%s before %s" % (D.name, islot.split(".")[1]), c.line,
+                                 "%s(%s) at line %s is reachable before the %s slot has run%s: the %s slot is then invoked on "
+                                 "memory its init never saw (a failed allocation turns into a crash instead of NNG_ENOMEM)"
+                                 % (D.name, a["n"], c.line, islot.split(".")[1],
+                                    (" and without clearing %s" % gfield) if gfield else "", fslot.split(".")[1]),
+                                 F.path_lines(F.find_path((F.entry, 0), lambda b, i: (b, i) == (c.b, c.i),
+                                                          blocked=lambda b, i, e: (b, i) in inits or (b, i) in clears)))
+                    else:
+                        r.ob(F, "%s line %s: after %s%s" % (D.name, c.line, islot.split(".")[1],
+                                                             " or with %s cleared" % gfield if clears else ""))
+
+
+REGISTER = {
+    # callee: (index of the registered object, undo callee, index of the object in the undo call or None = any)
+    "nni_sock_add_dialer": (1, ("nni_sock_remove_dialer",)),
+    "nni_sock_add_listener": (1, ("nni_sock_remove_listener",)),
+    "nni_id_alloc32": (2, ("nni_id_remove",)),
+    "nni_id_alloc": (2, ("nni_id_remove",)),
+    "nni_id_set": (2, ("nni_id_remove",)),
+    "nni_pipe_add": (0, ("nni_pipe_remove",)),
+}
+
+
+def frees_param(f):
+    """index of the parameter that f releases with nni_free(param, ..) itself (a raw destroyer)"""
+    for s in f.calls("nni_free"):
+        a = f.expand(s.node["args"][0])
+        if a.get("k") == "var":
+            for i, prm in enumerate(f.params):
+                if prm["n"] == a["n"]:
+                    return i
+            # local initialised from a parameter (void *arg idiom)
+            from .c01 import var_defs
+            for p, e in var_defs(f, a["n"]):
+                if e is not None and e.get("k") == "var":
+                    for i, prm in enumerate(f.params):
+                        if prm["n"] == e["n"]:
+                            return i
+    return None
+
+
+def reaches_undo(prog, f, undo, depth=0):
+    for s in f.calls():
+        if s.node.get("fn") in undo:
+            return True
+        if depth < 2 and s.node.get("fn"):
+            g = prog.resolve(f, s.node["fn"])
+            if g is not None and g is not f and not g.cfg_failed and reaches_undo(prog, g, undo, depth + 1):
+                return True
+    return False
+
+
+def rule_r9(ctx):
+    from .. import guards as G
+    from .c01 import reaching_defs
+    r = ctx.rule("C20.R9", "T2", "an object that a failing constructor step leaves registered (socket endpoint list, id map) is "
+                 "not freed by the caller: between a successful registration and a failing return the registration is undone, "
+                 "or the destroyer the caller uses undoes it", floor=6)
+    prog = ctx.prog
+    raw = {}
+    for f in prog.functions:
+        if not f.cfg_failed:
+            i = frees_param(f)
+            if i is not None:
+                raw[f.name] = (f, i)
+    n_seen = 0
+    for C in prog.functions:
+        if C.cfg_failed:
+            continue
+        for d in C.calls():
+            if d.node.get("fn") not in raw:
+                continue
+            D, di = raw[d.node["fn"]]
+            if di >= len(d.node["args"]):
+                continue
+            obj = C.expand(d.node["args"][di])
+            if obj.get("k") != "var":
+                continue
+            # constructor steps S(obj..) whose failure edge dominates this destroy
+            for sc in C.calls():
+                g = prog.resolve(C, sc.node.get("fn")) if sc.node.get("fn") else None
+                if g is None or g.cfg_failed or g is D:
+                    continue
+                qi = None
+                for i, a in enumerate(sc.node["args"]):
+                    a = C.expand(a) if a is not None else None
+                    if a is not None and a.get("k") == "var" and a["n"] == obj["n"]:
+                        qi = i
+                if qi is None or qi >= len(g.params):
+                    continue
+                ve = C.value_edges(sc)
+                fail_cut = {b: nz for b, (nz, z) in ve.items()}
+                if not ve or not G.dominated(C, (d.b, d.i), {b: fail_cut[b] for b in fail_cut}) is True:
+                    # destroy must be reachable only over the failure edge
+                    if not ve:
+                        continue
+                    seen = C.reach((C.entry, 0), edge_ok=lambda b, k: not (b in fail_cut and k == fail_cut[b]))
+                    if (d.b, d.i) in seen:
+                        continue
+                q = g.params[qi]["n"]
+                for R in g.calls():
+                    spec = REGISTER.get(R.node.get("fn"))
+                    if not spec:
+                        continue
+                    oi, undo = spec
+                    if oi >= len(R.node["args"]):
+                        continue
+                    ra = g.expand(R.node["args"][oi])
+                    if not (ra.get("k") == "var" and ra["n"] == q):
+                        continue
+                    n_seen += 1
+                    if reaches_undo(prog, D, undo):
+                        r.ob(g, "%s: %s undoes it" % (R.node["fn"], D.name))
+                        continue
+                    rve = g.value_edges(R)
+                    starts = []
+                    if rve:
+                        for b, (nz, z) in rve.items():
+                            if g.blocks[b].succs[z] is not None:
+                                starts.append((g.blocks[b].succs[z], 0))
+                    else:
+                        starts.append((R.b, R.i + 1))
+                    undos = G.positions(x for x in g.calls() if x.node.get("fn") in undo)
+                    # later may-fail steps: assignments of a call result to the variable that is returned
+                    rets = [x for x in g.sites() if x.node.get("k") == "ret" and x.node.get("e") is not None]
+                    rvn = {g.expand(x.node["e"])["n"] for x in rets if g.expand(x.node["e"]).get("k") == "var"}
+                    bad = None
+                    for st in starts:
+                        after = g.reach(st)
+                        for x in g.assigns():
+                            if (x.b, x.i) not in after or x.node["lhs"].get("k") != "var" or x.node["lhs"]["n"] not in rvn:
+                                continue
+                            rhs = g.expand(x.node["rhs"])
+                            if rhs.get("k") != "call":
+                                continue
+                            v = x.node["lhs"]["n"]
+                            okedge = G.cmp_edges(g, lambda l: l.get("k") == "var" and l["n"] == v, {"==": 0, "!=": 1},
+                                                 rhs_match=lambda y: const_of(y) == 0)
+                            redefs = {(y.b, y.i) for y in g.assigns() if y.node["lhs"].get("k") == "var" and y.node["lhs"]["n"] == v
+                                      and (y.b, y.i) != (x.b, x.i)}
+                            seen = g.reach((x.b, x.i + 1), blocked=lambda b, i, e: (b, i) in undos or (b, i) in redefs,
+                                           edge_ok=lambda b, k: not (b in okedge and k == okedge[b]))
+                            if (g.exit, 0) in seen:
+                                bad = (x, rhs)
+                    if bad:
+                        x, rhs = bad
+                        ctx.fail(r, g, "%s not undone when %s fails" % (R.node["fn"], rhs.get("fn")), x.line,
+                                 "%s registered %s (line %s); if %s at line %s then fails, %s returns the error without %s and "
+                                 "its caller %s frees the object with %s, which does not undo it either: the registration keeps "
+                                 "pointing at freed memory" % (R.node["fn"], q, R.line, rhs.get("fn"), x.line, g.name,
+                                                               "/".join(undo), C.name, D.name))
+                    else:
+                        r.ob(g, "%s: every later failure undoes it before returning" % R.node["fn"])
+    if n_seen < 4:
+        raise AnalysisBroken("only %d registrations inside constructor steps found" % n_seen)
+
+
 def run(ctx):
     rule_r1(ctx)
     rule_r2(ctx)
     rule_r3(ctx)
     rule_r4(ctx)
     rule_r7(ctx)
+    rule_r8(ctx)
+    rule_r9(ctx)
